@@ -34,7 +34,7 @@ def run(rep, kf, tier, seed):
     import contracts.resolvers as rs
     rs.discharge(rep, kf, "C20", tier, seed)
     from props.common import run_bounded
-    run_bounded(rep, kf, "C20", ["body_refs", "reference_strings"], tier)
+    run_bounded(rep, kf, "C20", ["body_refs", "reference_strings", "response_refs", "path_order", "schema_order"], tier)
     rep.trusted.extend(["CPython semantics of the supported subset as encoded in pyvc.symexec",
                         "lazily materialised symbolic dictionaries (pyvc.absdata.LazyMap) for tables of unknown content",
                         "convert_value by summary (C13); parse_reference_path by summary inside _property_from_ref (own contract below)",
